@@ -467,6 +467,20 @@ func conCase(r *Run, forms string, a, b *V) string {
 					viol("contains-map-key", hs+" contains "+ns)
 				}
 			}
+			// any key type, scalar needle: "contains tests map key" - the map has the key exactly when looking
+			// the needle up finds an entry (maps of the universe hold no nil values, so a found entry is non-nil)
+			if pn.Kind == 's' || pn.Kind == 'i' || pn.Kind == 'd' || pn.Kind == 't' || pn.Kind == 'f' {
+				nilVal := false
+				for _, kv := range entriesOf(ph) {
+					nilVal = nilVal || strip(kv[1]).Kind == 'n'
+				}
+				if !nilVal && ph.Kind == 'M' {
+					found, d := evalTF(fmt.Sprintf("%s[%s] != nil", hs, ns), bind)
+					if d == "" && (got == 'T') != (found == 'T') {
+						viol("contains-map-key-agrees-with-lookup", fmt.Sprintf("%s contains %s is %c, but %s[%s] != nil is %c", hs, ns, got, hs, ns, found))
+					}
+				}
+			}
 		case "nil", "bool", "number":
 			if got == 'T' {
 				viol("contains-scalar-false", hs+" contains "+ns)
